@@ -134,25 +134,35 @@ Proof.
     + right. apply in_flat_map. exists g. split; assumption.
 Qed.
 
-Lemma concat_sources_none : forall q l, concat (sources None q l) = filter (matches q) (content l).
+Lemma matches_at_core : forall d q e, q_tf q = TCore -> matches_at d q e = matches q e.
 Proof.
-  intros q l. unfold sources, content. rewrite concat_flat_map, filter_flat_map.
+  intros d q e H. unfold matches, matches_at, since_blind. rewrite H. rewrite !andb_false_r. reflexivity.
+Qed.
+
+Lemma filter_matches_at_core : forall d q l, q_tf q = TCore -> filter (matches_at d q) l = filter (matches q) l.
+Proof. intros d q l H. apply filter_ext. intros e. apply matches_at_core. exact H. Qed.
+
+Lemma concat_sources_none : forall q l, q_tf q = TCore ->
+  concat (sources None q l) = filter (matches q) (content l).
+Proof.
+  intros q l Hc. unfold sources, content. rewrite concat_flat_map, filter_flat_map.
   apply flat_map_ext_in. intros s _. unfold shard_sources, shard_events. cbn [concat].
   rewrite app_nil_r, filter_app. f_equal.
   rewrite filter_flat_map. apply flat_map_ext_in. intros g _.
   unfold seg_rows, seg_stale, seg_events. rewrite filter_concat, <- flat_map_concat_map.
-  apply flat_map_ext_in. intros z _. reflexivity.
+  apply flat_map_ext_in. intros z _. cbn [zone_kept]. apply filter_matches_at_core. exact Hc.
 Qed.
 
 (** with the materialisation guard: nothing that the query's own SINCE would let through is pruned,
     provided SINCE is at least the guard's timestamp on the CORE timestamp and no segment file is more than a
     second older than an event it holds *)
 Lemma concat_sources_guard : forall h q l,
+  q_tf q = TCore ->
   mtime_bad l = false ->
   (forall e, matches q e = true -> h <= e_ts e) ->
   concat (sources (Some h) q l) = filter (matches q) (content l).
 Proof.
-  intros h q l Hm Hq. unfold sources, content. rewrite concat_flat_map, filter_flat_map.
+  intros h q l Hc Hm Hq. unfold sources, content. rewrite concat_flat_map, filter_flat_map.
   apply flat_map_ext_in. intros s Hs. unfold shard_sources, shard_events. cbn [concat].
   rewrite app_nil_r, filter_app. f_equal.
   rewrite filter_flat_map. apply flat_map_ext_in. intros g Hg.
@@ -169,7 +179,7 @@ Proof.
     destruct (matches q e) eqn:M; [|reflexivity]. specialize (Hq e M). lia.
   - unfold seg_events. rewrite filter_concat, <- flat_map_concat_map.
     apply flat_map_ext_in. intros z Hz. unfold zone_kept, zone_tsmax.
-    destruct (max_of e_ts z <? h) eqn:Ez; cbn [negb]; [|reflexivity].
+    destruct (max_of e_ts z <? h) eqn:Ez; cbn [negb]; [|apply filter_matches_at_core; exact Hc].
     symmetry. apply filter_none. intros e He.
     destruct (matches q e) eqn:M; [|reflexivity]. specialize (Hq e M).
     pose proof (max_of_ge e_ts z e He). lia.
@@ -336,7 +346,7 @@ Lemma delta_core : forall q m e, q_tf q = TCore ->
 Proof.
   intros q m e Hc. unfold above, wm_pass, delta_query, tfval. rewrite Hc.
   destruct (mark_zero m) eqn:Z; [reflexivity|].
-  unfold matches, tfval; cbn [q_ctx q_where q_since q_tf]. rewrite Hc. fold (ekey e).
+  unfold matches, matches_at, since_blind, tfval; cbn [q_ctx q_where q_since q_tf andb]. rewrite Hc. fold (ekey e).
   destruct (mlt m (ekey e)) eqn:L; [|rewrite !andb_false_r; reflexivity].
   rewrite !andb_true_r. f_equal.
   apply mlt_spec in L. unfold ekey in L; cbn [fst snd] in L.
@@ -350,7 +360,7 @@ Lemma delta_since_ge : forall q m e, q_tf q = TCore ->
 Proof.
   intros q m e Hc. unfold delta_query. destruct (mark_zero m) eqn:Z.
   - apply mark_zero_spec in Z. subst. cbn [fst]. lia.
-  - unfold matches, tfval; cbn [q_ctx q_where q_since q_tf]. rewrite Hc.
+  - unfold matches, matches_at, since_blind, tfval; cbn [q_ctx q_where q_since q_tf andb]. rewrite Hc.
     rewrite !andb_true_iff. intros [_ H]. destruct (q_since q) as [s|].
     + destruct (s <? fst m) eqn:E; lia.
     + lia.
@@ -362,7 +372,9 @@ Lemma delta_rows : forall q fs l, q_tf q = TCore -> mtime_bad l = false ->
   = filter (above q m) (content l).
 Proof.
   intros q fs l Hc Hm m. unfold show_filter, wm_enabled. rewrite Hc.
-  rewrite <- filter_concat. rewrite concat_sources_guard; [|exact Hm|intros e; apply delta_since_ge; exact Hc].
+  assert (Hc' : q_tf (delta_query q (frames_mark fs)) = TCore).
+  { unfold delta_query. destruct (mark_zero (frames_mark fs)); [exact Hc|exact Hc]. }
+  rewrite <- filter_concat. rewrite concat_sources_guard; [|exact Hc'|exact Hm|intros e; apply delta_since_ge; exact Hc].
   rewrite filter_filter_and. apply filter_ext. intros e. apply delta_core. exact Hc.
 Qed.
 
@@ -490,11 +502,11 @@ Proof.
   destruct (valid_order (sources None q (st_layout st)) (map fst ch)) eqn:V; [|discriminate].
   inversion R; subst fs; clear R.
   eapply perm_trans; [apply valid_order_perm; exact V|].
-  rewrite concat_sources_none. apply Permutation_refl'. apply filter_ext_in.
+  rewrite concat_sources_none by exact Htf. apply Permutation_refl'. apply filter_ext_in.
   intros e He. unfold below. destruct (matches q e) eqn:M; [|reflexivity]. cbn [andb]. symmetry.
   unfold last_dominates in Ld. rewrite forallb_forall in Ld. apply Ld.
   eapply Permutation_in; [apply Permutation_sym; apply valid_order_perm; exact V|].
-  rewrite concat_sources_none. apply filter_In. split; assumption.
+  rewrite concat_sources_none by exact Htf. apply filter_In. split; assumption.
 Qed.
 
 (** the heart: one SHOW of an entry satisfying the invariant *)
